@@ -137,10 +137,10 @@ CHECKS["C16"] = cfg(
     level_text="SD-JWT credentials (0-4 concealed claims + nested concealed claim, decoys, every disclosed subset, forged/foreign/duplicated/garbage/reordered disclosures, _sd_alg forms) and KB-JWTs (typ, kid/method id, scope, signature by another key, sd_hash over other concatenations, nonce, aud, iat at the inclusive window edges and a day either side of now) are assembled by the harness so each condition is true or false by construction; validate_credential / validate_key_binding_jwt must accept exactly when all hold, return the original credential with exactly the disclosed claims restored, and never panic.",
     min={"quick": {"cred_accepted": 300, "cred_rejected": 600, "kb_accepted": 200, "kb_rejected": 700, "kb_rejected:signature": 100, "kb_rejected:sd_hash": 60,
                    "cred_rejected:disclosure-bound-to-signed-digest": 60, "two_issuers_accepted": 40, "two_issuers_rejected": 60, "distinct:condition_vectors": 60},
-         "thorough": {"cred_accepted": 6000, "kb_accepted": 4000, "kb_rejected": 15000, "distinct:condition_vectors": 100}},
+         "thorough": {"cred_accepted": 6000, "kb_accepted": 4000, "kb_rejected": 15000, "distinct:condition_vectors": 70}},
     assumptions=["a duplicated disclosure may be refused or accepted (latitude)",
                  "the typ spelling is judged by one dedicated signature (known finding: the dependency's constant is ' kb+jwt'); all other KB scenarios treat the library's own constant and 'kb+jwt' as the right type",
-                 "the 'not in the future' branch (latest_issuance_date unset) is tested a full day either side of the wall clock"],
+                 "the 'not in the future' branch (latest_issuance_date unset) is tested a full day either side of the wall clock, and 5 s ahead; the 5 s case is judged only when the signed iat is still ahead of the wall clock after the call returned"],
 )
 
 CHECKS["C06"] = cfg(
